@@ -6,6 +6,8 @@ import refcodec as rc
 import simnet
 from refserver import RefServer
 
+EXTRA_PROPS = ['C09Wire']
+
 RULE = ("allowed-version sets (singletons, pairs, chronological prefixes, all supported; as numbers or "
         "names) x default versions x server behaviours (every supported protocol in turn, unsupported/"
         "unknown/negative numbers, missing version object, missing protocol key, empty object, close "
@@ -28,6 +30,7 @@ def clist(xs):
 def run(ctx):
     import minecraft
     import minecraft.networking.connection as C
+    from minecraft.networking.packets import serverbound as sb
     from minecraft.exceptions import VersionMismatch
     ctx.extra['rule'] = RULE
     rng = ctx.rng
@@ -98,7 +101,11 @@ def run(ctx):
         if mo != g:
             ctx.disagree('Connection.__init__', line[-200:], mo, g)
     # ------------------------------------------------------------------ negotiation scenarios
+    names_of = {}
+    for nm, pv in minecraft.SUPPORTED_MINECRAFT_VERSIONS.items():
+        names_of.setdefault(pv, []).append(nm)
     lines, impl = [], []
+    wlines, wimpl = [], []
     scen = []
     prefixes = [SUP[:k] for k in (2, 3, len(SUP) // 2, len(SUP))]
     for i in range(ctx.scale(260, 2500)):
@@ -149,7 +156,18 @@ def run(ctx):
         cfg = {'version': 47, 'status': status, 'close_after_status': True, 'script': [('close',)]}
         log = []
         with simnet.Net(lambda s: RefServer(s, cfg)) as net:
-            conn = C.Connection('play.example.org', 25570, username='user7', allowed_versions=set(allowed),
+            # the same SET of protocol versions, spelled with aliases and repetitions (several version
+            # names share one protocol number; numbers and names may be mixed)
+            given = set(allowed)
+            if rng.random() < 0.45:
+                given = []
+                for v_ in allowed:
+                    names = names_of.get(v_, [])
+                    forms = [v_] + names
+                    given += rng.sample(forms, min(len(forms), rng.choice([1, 2, 3])))
+                rng.shuffle(given)
+                ctx.count('alias-spelling')
+            conn = C.Connection('play.example.org', 25570, username='user7', allowed_versions=given,
                                 initial_version=default,
                                 handle_exception=lambda e, i: log.append(e),
                                 handle_exit=lambda: log.append('exit'))
@@ -166,6 +184,7 @@ def run(ctx):
             except Exception as e:
                 log.append(e)
             servers = cfg['servers']
+            raws = [bytes(s_.sent) for s_ in net.sockets if s_.connected]
         hs = [s.handshake for s in servers]
         first = [[(f[1], f[2]) for f in s.frames if f[0] != 'handshake'][:1] for s in servers]
         excs = [e for e in log if isinstance(e, BaseException)]
@@ -194,6 +213,20 @@ def run(ctx):
             impl.append(got)
         lines.append('neg.plan kp=%s allowed=%s' % (clist(KNOWN), clist(allowed_sorted)))
         impl.append('ok %s %d' % (('direct', hs[0]['protocol']) if hs[0]['next'] == 2 else ('query', hs[0]['protocol'])))
+        # ---------------- byte level (Model/HandshakeWire.lean, Props/C09Wire.lean): the raw bytes of each
+        # connection are the model's first frames for (protocol, host, port, next state[, login start])
+        for raw, hsk in zip(raws, hs):
+            if not hsk:
+                continue
+            cxr = C.ConnectionContext(protocol_version=hsk['protocol'])
+            line = 'hswire.first proto=%d host=%s port=%d next=%d' % (
+                hsk['protocol'], 'play.example.org'.encode().hex(), 25570, hsk['next'])
+            if hsk['next'] == 2:
+                line += ' start=%d:%s' % (sb.login.LoginStartPacket.get_id(cxr), b'user7'.hex())
+            wlines.append(line)
+            wimpl.append(('ok ' + raw.hex(), reply[0] == 'close-early'))
+            wlines.append('hswire.parse ' + raw.hex())
+            wimpl.append(None)
         # ---------------- oracle: the property
         bad = None
         latest = max(set(allowed), key=rank.get)
@@ -233,6 +266,19 @@ def run(ctx):
     for line, mo, g in zip(lines, ctx.driver.ask(lines), impl):
         if mo != g:
             ctx.disagree('negotiation', line[-160:], mo[:200], g[:200])
+    nw = 0
+    for line, mo, g in zip(wlines, ctx.driver.ask(wlines), wimpl):
+        if g is None:         # the Lean reference server must parse the real bytes to the same record
+            ok = mo.startswith('ok proto=') and ' host=%s port=25570 ' % 'play.example.org'.encode().hex() in mo
+            g = 'ok proto=… host=play.example.org port=25570 …'
+        else:
+            g, early = g
+            # a server that hangs up on the handshake makes the client's next write fail: a frame-wise prefix
+            ok = mo == g or (early and mo.startswith(g) and len(g) > 10)
+            nw += 1
+        if not ok:
+            ctx.disagree('first frames on the wire', line[:200], mo[:200], g[:200])
+    ctx.extra['first_frame_streams_compared'] = nw
     # ------------------------------------------------------------------ authenticated profile name
     class Tok:
         class profile:
